@@ -158,10 +158,30 @@ class InlineTrans(Transformation):
             new_stmts.append(child.copy())
             refs.extend(new_stmts[-1].walk(Reference))
 
+        # A local variable of the routine that has the same name as a symbol
+        # that is visible at the call site from an *outer* scope (e.g. a
+        # variable declared in the parent Container) would shadow that symbol
+        # once it has been added to the table at the call site and thereby
+        # capture any reference to it in the calling routine. Such variables
+        # are renamed first. (Clashes with symbols in the table at the call
+        # site itself are dealt with by merge().)
+        symbols_to_skip = self._symbols_to_skip(routine_table)
+        for sym in routine_table.datasymbols:
+            if (sym in symbols_to_skip or sym is routine.return_symbol or
+                    not (sym.is_automatic or sym.is_static) or
+                    sym.name in table):
+                continue
+            try:
+                table.lookup(sym.name)
+            except KeyError:
+                continue
+            routine_table.rename_symbol(
+                sym, table.next_available_name(sym.name,
+                                               other_table=routine_table))
+
         # Shallow copy the symbols from the routine into the table at the
         # call site.
-        table.merge(routine_table,
-                    symbols_to_skip=self._symbols_to_skip(routine_table))
+        table.merge(routine_table, symbols_to_skip=symbols_to_skip)
 
         # When constructing new references to replace references to formal
         # args, we need to know whether any of the actual arguments are array
